@@ -34,17 +34,31 @@ func NewFileStorage(dir string) (Storage, error) {
 }
 
 // Set sets the value for a specific key.
+//
+// The value is written to a temporary file which then replaces the file of the key.
+// A reader (or a restart after a crash) sees either the previous or the new value.
 func (f *fileStorage) Set(key string, value []byte) error {
-	file, err := f.fileForWrite(key)
+	path := f.filePathToFile(key)
+	tmp := path + ".tmp"
 
+	file, err := os.OpenFile(tmp, os.O_WRONLY|os.O_CREATE|os.O_TRUNC, 0666)
 	if err != nil {
 		return err
 	}
 
-	defer file.Close()
-
 	_, err = file.Write(value)
-	return err
+	if err == nil {
+		err = file.Sync()
+	}
+	if cerr := file.Close(); err == nil {
+		err = cerr
+	}
+	if err != nil {
+		os.Remove(tmp)
+		return err
+	}
+
+	return os.Rename(tmp, path)
 }
 
 // Get returns the value for a specific key.
@@ -98,10 +112,6 @@ func (f *fileStorage) dir() string {
 func (f *fileStorage) filePathToFile(file string) string {
 	fname := removeInvalidFileNameCharacters(file)
 	return filepath.Join(f.dir(), fname)
-}
-
-func (f *fileStorage) fileForWrite(key string) (*os.File, error) {
-	return os.OpenFile(f.filePathToFile(key), os.O_WRONLY|os.O_CREATE, 0666)
 }
 
 func (f *fileStorage) fileForRead(key string) (*os.File, error) {
